@@ -14,6 +14,10 @@ from fractions import Fraction
 INF = 'inf'
 
 
+class Unsupported(Exception):
+    """argument combination whose documented meaning this reference does not pin down"""
+
+
 def dv(v):
     t = v[0]
     if t == 'i':
@@ -59,6 +63,13 @@ def need_num(*xs):
 
 def isfloat(x):
     return isinstance(x, Fraction)
+
+
+def same_kind(*xs):
+    if any(isinstance(x, bool) for x in xs) or len({isfloat(x) for x in xs}) > 1:
+        raise Unsupported('mixed int/float/bool bounds')
+    if xs[1] >= xs[2]:
+        raise Unsupported('lo >= hi')
 
 
 def fdiv(a, b):
@@ -135,6 +146,7 @@ FUNCS = {
 def wrap(x, lo, hi):
     """wrap x into [lo, hi] (ints, inclusive) / [lo, hi) (floats)."""
     need_num(x, lo, hi)
+    same_kind(x, lo, hi)
     if not isfloat(x) and not isfloat(lo) and not isfloat(hi):
         m = hi - lo + 1
         if m == 0:
@@ -152,6 +164,7 @@ def wrap(x, lo, hi):
 def clip(x, lo, hi):
     """clip x into [lo, hi]; the result has the type of x."""
     need_num(x, lo, hi)
+    same_kind(x, lo, hi)
     if isfloat(x):
         lo, hi = Fraction(lo), Fraction(hi)
     else:
@@ -161,6 +174,7 @@ def clip(x, lo, hi):
 
 def fold(x, lo, hi):
     need_num(x, lo, hi)
+    same_kind(x, lo, hi)
     if not isfloat(x) and not isfloat(lo) and not isfloat(hi):
         b = hi - lo
         if b == 0:
@@ -411,7 +425,7 @@ def evaluate(e, n):
                 return [vals, 'stop']
             vals.append(ev(v))
         return [vals, 'more']
-    except RecursionError:
+    except (RecursionError, Unsupported):
         raise
     except Exception:
         return [vals, 'err']
